@@ -11,6 +11,7 @@ theorem tie_h_graph_setupRetry : Extracted.Graph.h_graph_setupRetry = Canon.Grap
 theorem tie_h_graph_NewExecutionGraph : Extracted.Graph.h_graph_NewExecutionGraph = Canon.Graph.h_graph_NewExecutionGraph := by decide +kernel
 theorem tie_h_graph_NewExecutionGraphForRetry : Extracted.Graph.h_graph_NewExecutionGraphForRetry = Canon.Graph.h_graph_NewExecutionGraphForRetry := by decide +kernel
 theorem tie_h_graph_node_clearState : Extracted.Graph.h_graph_node_clearState = Canon.Graph.h_graph_node_clearState := by decide +kernel
+theorem tie_h_rest_graph_dag_scheduler_graph_go : Extracted.Graph.h_rest_graph_dag_scheduler_graph_go = Canon.Graph.h_rest_graph_dag_scheduler_graph_go := by decide +kernel
 theorem tie_hasCycleFacts : Extracted.Graph.hasCycleFacts = Canon.Graph.hasCycleFacts := by decide +kernel
 theorem tie_setupRetryFacts : Extracted.Graph.setupRetryFacts = Canon.Graph.setupRetryFacts := by decide +kernel
 
@@ -22,6 +23,7 @@ theorem tie_setupRetryFacts : Extracted.Graph.setupRetryFacts = Canon.Graph.setu
 #print axioms tie_h_graph_NewExecutionGraph
 #print axioms tie_h_graph_NewExecutionGraphForRetry
 #print axioms tie_h_graph_node_clearState
+#print axioms tie_h_rest_graph_dag_scheduler_graph_go
 #print axioms tie_hasCycleFacts
 #print axioms tie_setupRetryFacts
 
